@@ -305,7 +305,7 @@ func (C02) ID() string { return "C02" }
 func (C02) Explore(x *kernel.Explorer, seed uint64) {
 	r := kernel.NewRNG(seed, 0xc02)
 	for i := 0; i < 3 && !x.Expired(); i++ {
-		plan := &kernel.Plan{Prop: "C02", Seed: kernel.Mix(seed, uint64(i)), Swarm: map[string]int64{"tls": int64(r.Intn(2)), "ksv2": int64(r.Intn(3) / 2), "mysql": int64(r.Intn(3) / 2), "depeof": int64(r.Intn(2)), "wyield": int64(r.Intn(2)), "chunk": int64(r.Intn(4))}}
+		plan := &kernel.Plan{Prop: "C02", Seed: kernel.Mix(seed, uint64(i)), Swarm: map[string]int64{"tls": int64(r.Intn(2)), "ksv2": int64(r.Intn(3) / 2), "mysql": int64(r.Intn(3) / 2), "depeof": int64(r.Intn(2)), "wyield": int64(r.Intn(2)), "chunk": int64(r.Intn(4)), "conc": int64(r.Intn(2))}}
 		n := 2 + r.Intn(6)
 		for j := 0; j < n; j++ {
 			plan.Ops = append(plan.Ops, kernel.Op{ID: j + 1, Kind: "cross", A: []int64{
@@ -374,6 +374,9 @@ func (C02) Run(t *testing.T, plan *kernel.Plan, keepLog bool) *kernel.Result {
 		}
 		if plan.Sw("tls") == 1 {
 			c02TLS(w, cw)
+		}
+		if plan.Sw("conc") == 1 && plan.Sw("ksv2") == 0 {
+			c02Conc(w, cw, plan)
 		}
 		// different clients always get different keys
 		seen := map[string]string{}
